@@ -54,7 +54,7 @@ theorem C15_highS_sig_normalised :
 `decodeBytes` calls in the current sidecar/tlv.go, in the same order and with the same decoder kinds,
 and the serialisers write the same set of types. -/
 theorem C15_record_tables_match_source :
-    (ticketRecs ⟨true, true, 0⟩).map (·.typ) = Pool.Gen.C15.DeserializeTicketTypes ∧
+    (ticketRecs ⟨true, true, false, 0⟩).map (·.typ) = Pool.Gen.C15.DeserializeTicketTypes ∧
     offerRecs.map (·.typ) = Pool.Gen.C15.deserializeOfferTypes ∧
     recipientRecs.map (·.typ) = Pool.Gen.C15.deserializeRecipientTypes ∧
     orderRecs.map (·.typ) = Pool.Gen.C15.deserializeOrderTypes ∧
@@ -388,6 +388,22 @@ theorem C15_store_read_after_write (cfg : Cfg) (hm : 1000 ≤ cfg.maxAlloc) (b b
   constructor
   · simp only [sidecarGet, getSidecarKey, readSidecar, SBucket.get_put_same, hdes]
   · intro key' hne; exact SBucket.get_put_other _ _ _ _ hne
+
+/-- `AddSidecarWithBid`: what is read back is the ticket with its order part replaced by the bid's nonce (and a
+later `UpdateSidecar` – also one into a terminal state, which first drops the bid template – is covered by
+`C15_store_read_after_write`: the stored value is the ticket given, nothing else). -/
+theorem C15_store_add_with_bid (cfg : Cfg) (hm : 1000 ≤ cfg.maxAlloc) (b b' : SBucket) (t : Ticket) (h : t.wf)
+    (k : Bytes) (hk : t.offer.signPubKey = some k) (n : Bytes) (hn : n.length = 32)
+    (hw : addSidecarWithBid b t n = .ok b') :
+    sidecarGet cfg b' t.id (some k) = .ok { t with order := some { bidNonce := n, sigOrderDigest := none } } := by
+  have hwf : ({ t with order := some { bidNonce := n, sigOrderDigest := none } } : Ticket).wf := by
+    obtain ⟨h1, h2, h3, h4, h5, _, h7⟩ := h
+    refine ⟨h1, h2, h3, h4, h5, ?_, h7⟩
+    intro o ho
+    injection ho with ho
+    subst ho
+    exact ⟨hn, by intro g hg; cases hg⟩
+  exact (C15_store_read_after_write cfg hm b b' _ hwf k hk (Or.inr hw)).1
 
 /-- an update needs a stored ticket; an add refuses an occupied key -/
 theorem C15_store_update_needs_entry (b : SBucket) (t : Ticket) (k : Bytes) (hk : t.offer.signPubKey = some k)
